@@ -10,6 +10,7 @@ import (
 	"io"
 	"net"
 	"net/url"
+	"os"
 	"strings"
 	"sync"
 	"sync/atomic"
@@ -68,6 +69,9 @@ type MemConn struct {
 	blockedW   int32         // number of writers currently blocked (atomic)
 	writeCalls int
 
+	readDeadline time.Time // honoured like a socket does (a correct client never sets one)
+	dlChanged    chan struct{}
+
 	resetErr error // set by ResetByPeer: every blocked and future Write fails
 
 	closed    chan struct{}
@@ -80,11 +84,12 @@ type MemConn struct {
 func newMemConn(id int, addr string, clock *Log) *MemConn {
 	return &MemConn{
 		ID: id, Addr: addr,
-		inNotify: make(chan struct{}, 1),
-		changed:  make(chan struct{}),
-		gate:     make(chan struct{}),
-		closed:   make(chan struct{}),
-		clock:    clock,
+		inNotify:  make(chan struct{}, 1),
+		dlChanged: make(chan struct{}),
+		changed:   make(chan struct{}),
+		gate:      make(chan struct{}),
+		closed:    make(chan struct{}),
+		clock:     clock,
 	}
 }
 
@@ -123,11 +128,32 @@ func (c *MemConn) Read(p []byte) (int, error) {
 			return n, nil
 		}
 		c.readCalls--
+		dl := c.readDeadline
+		dlc := c.dlChanged
 		c.mu.Unlock()
+		var tc <-chan time.Time
+		var tm *time.Timer
+		if !dl.IsZero() {
+			d := time.Until(dl)
+			if d <= 0 {
+				return 0, os.ErrDeadlineExceeded
+			}
+			tm = time.NewTimer(d)
+			tc = tm.C
+		}
 		select {
 		case <-c.inNotify:
+		case <-dlc:
+		case <-tc:
+			return 0, os.ErrDeadlineExceeded
 		case <-c.closed:
+			if tm != nil {
+				tm.Stop()
+			}
 			return 0, ErrClosed
+		}
+		if tm != nil {
+			tm.Stop()
 		}
 	}
 }
@@ -232,9 +258,18 @@ func (a memAddr) String() string  { return string(a) }
 
 func (c *MemConn) LocalAddr() net.Addr                { return memAddr("local") }
 func (c *MemConn) RemoteAddr() net.Addr               { return memAddr(c.Addr) }
-func (c *MemConn) SetDeadline(t time.Time) error      { return nil }
-func (c *MemConn) SetReadDeadline(t time.Time) error  { return nil }
+func (c *MemConn) SetDeadline(t time.Time) error      { return c.SetReadDeadline(t) }
 func (c *MemConn) SetWriteDeadline(t time.Time) error { return nil }
+
+// SetReadDeadline makes a blocked or future Read fail with os.ErrDeadlineExceeded at t (zero = never).
+func (c *MemConn) SetReadDeadline(t time.Time) error {
+	c.mu.Lock()
+	c.readDeadline = t
+	close(c.dlChanged)
+	c.dlChanged = make(chan struct{})
+	c.mu.Unlock()
+	return nil
+}
 
 // ---- harness (server) side ----
 
